@@ -227,6 +227,35 @@ def inplace_wraps(body):
     return out
 
 
+def bracketed_appends(body):
+    """`x.push_str(FIRST); …anything appended to x…; x.push_str(LAST)` on one String local x that starts empty: the first append dominates every
+    other mutation of x and nothing is done to x after the last one.  [(local, FIRST E, LAST E, first block, last block)] — another in-place
+    spelling of `x = FIRST ++ middle ++ LAST`."""
+    refs = {}
+    for (i, j, st) in body.stmts():
+        if st["k"] == "assign" and not st["place"]["p"] and st["rv"]["k"] == "ref" and st["rv"].get("mut") and not st["rv"]["place"]["p"] \
+                and body.locals[st["rv"]["place"]["l"]]["ty"] == "std::string::String":
+            refs[st["place"]["l"]] = st["rv"]["place"]["l"]
+    muts = {}
+    for (bb, t) in body.calls():
+        if not t["args"] or t["args"][0]["k"] == "const" or t["args"][0]["place"]["p"] or t["args"][0]["place"]["l"] not in refs:
+            continue
+        muts.setdefault(refs[t["args"][0]["place"]["l"]], []).append((bb, t))
+    out = []
+    for l, ms in muts.items():
+        wd = body.whole_defs(l)
+        if not (len(wd) == 1 and wd[0][2] == "call" and (callee_name(wd[0][3]).endswith("String::new") or callee_name(wd[0][3]).endswith("String::with_capacity"))):
+            continue
+        apps = [(bb, t) for (bb, t) in ms if callee_name(t).endswith("String::push_str")]
+        if len(apps) < 2:
+            continue
+        firsts = [(bb, t) for (bb, t) in apps if all(bb == b2 or body.dominates(bb, b2) for (b2, _) in ms)]
+        lasts = [(bb, t) for (bb, t) in apps if not any(b2 != bb and b2 in body.reachable_from(bb) for (b2, _) in ms)]
+        if len(firsts) == 1 and len(lasts) == 1 and firsts[0][0] != lasts[0][0]:
+            out.append((l, body.expr_operand(firsts[0][1]["args"][1]), body.expr_operand(lasts[0][1]["args"][1]), firsts[0][0], lasts[0][0]))
+    return out
+
+
 def filtered_chars_loop(body, l):
     """A String filled by a per-character filter loop —
            let mut out = String::new();  for c in SRC.chars() { if keep(c) { out.push(c) } }
